@@ -22,13 +22,12 @@ CReset == [bad |-> FALSE, why |-> "", subs |-> << >>, bcs |-> << >>, before |-> 
 Vals(c) == {c.bcs[b].v : b \in DOMAIN c.bcs}
 
 (* is there a cycle in the "must precede" relation R over nodes N? (Warshall, small N) *)
-RECURSIVE Closure(_, _)
-Closure(R, todo) == IF todo = {} THEN R
-                    ELSE LET k == CHOOSE x \in todo : TRUE
-                             R2 == R \cup {<<p[1], q[2]>> : p \in {x \in R : x[2] = k}, q \in {x \in R : x[1] = k}}
-                         IN Closure(R2, todo \ {k})
-Cyclic(R, N) == \E x \in N : <<x, x>> \in Closure(R, N)
-
+(* `before` is kept transitively closed.  Adding "every x in X precedes v": *)
+AddBefore(R, X, v) == LET A == X \cup {p[1] : p \in {q \in R : q[2] \in X}}
+                          D == {v} \cup {p[2] : p \in {q \in R : q[1] = v}}
+                      IN R \cup (A \X D)
+(* ... creates a cycle iff v already precedes some x in X *)
+WouldCycle(R, X, v) == v \in X \/ \E x \in X : <<v, x>> \in R
 ToSet(s) == {s[i] : i \in 1..Len(s)}
 
 CSubCall(c, e) == [c EXCEPT !.subs = (e.s :> [st |-> "called", kind |-> e.kind, recv |-> <<>>, lateWait |-> FALSE]) @@ c.subs]
@@ -39,16 +38,16 @@ CBcCall(c, e) ==
   LET done == {b \in DOMAIN c.bcs : c.bcs[b].ret}
       elig == {s \in DOMAIN c.subs : c.subs[s].st = "subscribed"}
   IN [c EXCEPT !.bcs = (e.b :> [v |-> e.v, ret |-> FALSE, elig |-> elig]) @@ c.bcs,
-               !.before = c.before \cup {<<c.bcs[b].v, e.v>> : b \in done}]   \* real-time order of Broadcast calls
+               !.before = AddBefore(c.before, {c.bcs[b].v : b \in done}, e.v)]   \* real-time order of Broadcast calls
 CBcRet(c, e) == [c EXCEPT !.bcs[e.b].ret = TRUE]
 
 CRecv(c, e) ==
   IF e.v \notin Vals(c) THEN Bad("a value was received that was never broadcast")
   ELSE IF e.v \in ToSet(c.subs[e.s].recv) THEN Bad("a subscriber received a value twice")
   ELSE IF c.subs[e.s].lateWait THEN Bad("a value was delivered after Close returned")
-  ELSE LET before2 == c.before \cup {<<x, e.v>> : x \in ToSet(c.subs[e.s].recv)}
-       IN IF Cyclic(before2, Vals(c)) THEN Bad("subscribers saw values in different orders (or against the order of the Broadcast calls)")
-          ELSE [c EXCEPT !.before = before2, !.subs[e.s].recv = Append(@, e.v)]
+  ELSE LET X == ToSet(c.subs[e.s].recv)
+       IN IF WouldCycle(c.before, X, e.v) THEN Bad("subscribers saw values in different orders (or against the order of the Broadcast calls)")
+          ELSE [c EXCEPT !.before = AddBefore(c.before, X, e.v), !.subs[e.s].recv = Append(@, e.v)]
 
 (* at rest, with the broadcaster open, every staying subscriber that reads has every value broadcast since it subscribed *)
 CQuiescent(c, e) ==
